@@ -8,7 +8,7 @@ with nodes ('cmp', op, term, term) ('and', [..]) ('or', [..]) ('not', x)."""
 import ast
 
 from .core import AnalysisError
-from .pathwalk import show, is_const, C, PathState
+from .pathwalk import show, is_const, C, PathState, imm_eval_wrappers
 
 INST, POS, ENV = ('sym', 'INST'), ('sym', 'POS'), ('sym', 'ENV')
 RAW_COMPARES = []
@@ -40,8 +40,41 @@ def factory_name(walker, pred):
     return par.name if par is not None and name in ('inner', '<lambda>') else name
 
 
+def substitute(v, mapping):
+    if isinstance(v, tuple):
+        if v in mapping:
+            return mapping[v]
+        return tuple(substitute(x, mapping) for x in v)
+    return v
+
+
 def lift_predicate(walker, pred, facts, st=None):
     """(formula, factory name, function node) of a predicate value."""
+    # module-level helpers that are handed the instruction (`stable_immediate(i, p, e, constants, labels)` moved out of the pass) are
+    # evaluated in place while a predicate is applied, like the local closures they replace
+    saved = walker.__dict__.get('_eval_helpers_of')
+    walker.__dict__['_eval_helpers_of'] = INST
+    try:
+        return _lift_predicate(walker, pred, facts, st)
+    finally:
+        walker.__dict__['_eval_helpers_of'] = saved
+
+
+def _lift_predicate(walker, pred, facts, st=None):
+    if pred[0] == 'symtest':
+        # a test written next to the all(...) of the first-match search (`item.name == mnemonic and all(...)`): already a value
+        # over the search's arguments; they are renamed to the three symbols
+        _, val, args, node = pred
+        if len(args) != 3:
+            raise AnalysisError('compression predicates are applied to {} arguments, not to (instruction, position, environment)'.format(len(args)))
+        v = substitute(val, dict(zip(args, (INST, POS, ENV))))
+        return to_formula(v, facts, '<search test>'), '<search test>', node
+    if pred[0] == 'call' and isinstance(pred[1], str) and pred[1] in facts.funcs and not any(a[0] == 'star' for a in pred[2]):
+        # a predicate made by a module-level factory: the factory is applied, the function value it returns is the predicate
+        made = walker.eval_fn(facts.funcs[pred[1]], pred[2], pred[3], st or PathState(), {})
+        if made is not None and made[0] in ('lambda', 'closure', 'obj'):
+            f, _, fn = lift_predicate(walker, made, facts, st)
+            return f, pred[1], fn
     fname = factory_name(walker, pred)
     if pred[0] == 'obj' and walker.method_of_obj(pred, '__call__') is not None:
         fn = walker.method_of_obj(pred, '__call__')
@@ -73,6 +106,21 @@ def to_formula(v, facts, fname):
         x = to_term(v[2], facts, fname)
         f = ('or', [('cmp', '==', x, to_term(a, facts, fname)) for a in v[3][1]])
         return f if v[1] == 'in' else ('not', f)
+    if k == 'cmp' and v[1] in ('in', 'not in') and v[3][0] == 'name' and to_term_or_none(v[2], facts, fname) == ('NAME',):
+        # the mnemonic looked up in a module-level table of mnemonics: one of its keys
+        tbl = facts.tables.get(v[3][1])
+        if tbl is None and isinstance(facts.consts.get(v[3][1]), (dict, set, frozenset, list, tuple)):
+            tbl = facts.consts[v[3][1]]
+        if tbl is not None and all(isinstance(x, str) for x in tbl):
+            f = ('or', [('cmp', '==', ('NAME',), ('const', x)) for x in tbl])
+            return f if v[1] == 'in' else ('not', f)
+    if k == 'cmp' and v[1] in ('is', 'is not', '==', '!=') and v[2][0] == 'call' and v[2][1] == 'type' and len(v[2][2]) == 1 and not v[2][3] \
+            and v[3][0] == 'name' and rooted_at_imm(v[2][2][0]) and v[3][1] in facts.classes:
+        # type(i.imm) is K: isinstance(i.imm, K) when K has no subclasses (exactly then the two agree)
+        if any(facts.is_subclass(c, v[3][1]) for c in facts.classes if c != v[3][1]):
+            raise AnalysisError('predicate {}: type(..) is {} is narrower than isinstance ({} has subclasses)'.format(fname, v[3][1], v[3][1]))
+        f = to_formula(('call', 'isinstance', (v[2][2][0], v[3]), ()), facts, fname)
+        return f if v[1] in ('is', '==') else ('not', f)
     if k == 'cmp' and v[1] in ('is', 'is not') and (is_const(v[2]) or is_const(v[3])):
         f = cmp_formula('==', v[2], v[3], facts, fname)
         return f if v[1] == 'is' else ('not', f)
@@ -82,6 +130,9 @@ def to_formula(v, facts, fname):
         return (v[1], [to_formula(x, facts, fname) for x in v[2]])
     if k == 'un' and v[1] == 'not':
         return ('not', to_formula(v[2], facts, fname))
+    if k == 'bin' and v[1] in ('%', '&'):
+        # an integer used as a truth value: `not imm % 4` is `imm % 4 == 0`
+        return ('cmp', '!=', to_term(v, facts, fname), ('const', 0))
     if k == 'orelse':
         # try: X  except: <constant>  -- where the evaluation of X fails the predicate is the constant
         if is_const(v[2]) and v[2][1] is False:
@@ -127,6 +178,31 @@ def rooted_at_imm(v):
 
 
 TRUE, FALSE = ('and', []), ('or', [])
+MIRROR = {'==': '==', '!=': '!=', '<': '>', '<=': '>=', '>': '<', '>=': '<='}
+
+
+def env_kind(v, e):
+    """Which table an immediate is evaluated against: 'labels' (the live environment or anything built from the label table),
+    ('const', name) for a table built from other names only (the pass's constants), None when the value is not understood."""
+    if v == e or v == ('name', 'labels'):
+        return 'labels'
+    if v[0] == 'name':
+        return ('const', v[1])
+    if v[0] == 'call' and v[1] in ('ChainMap', 'collections.ChainMap', 'dict', 'MappingProxyType', 'types.MappingProxyType') and v[2] and not v[3]:
+        kinds = [env_kind(a, e) for a in v[2]]
+        if any(k is None for k in kinds):
+            return None
+        if 'labels' in kinds:
+            return 'labels'
+        return kinds[0]
+    if v[0] == 'mcall' and v[2] == 'copy' and not v[3]:
+        return env_kind(v[1], e)
+    if v[0] == 'dict' and len(v) > 1 and all(k == ('opaque', '**') for k, _ in v[1]) and v[1]:
+        kinds = [env_kind(a, e) for _, a in v[1]]
+        if any(k is None for k in kinds):
+            return None
+        return 'labels' if 'labels' in kinds else kinds[0]
+    return None
 
 
 def cmp_formula(op, a, b, facts, fname):
@@ -184,7 +260,17 @@ def cmp_formula(op, a, b, facts, fname):
         base, k = affine(b)
         if k:
             return cmp_formula(op, C(a[1] - k), base, facts, fname)
-    return ('cmp', op, to_term(a, facts, fname), to_term(b, facts, fname))
+    ta, tb = to_term(a, facts, fname), to_term(b, facts, fname)
+    if ta[0] == 'const' and tb[0] != 'const' and op in MIRROR:
+        # `0 <= x`, `'addi' == i.name`: the constant goes to the right (the consumers read bounds and names off that shape)
+        ta, tb, op = tb, ta, MIRROR[op]
+    return ('cmp', op, ta, tb)
+
+
+def to_term_or_none(v, facts, fname):
+    if v == ('attr', INST, 'name') or (v[0] == 'call' and v[1] == 'getattr' and len(v[2]) == 2 and v[2][0] == INST and v[2][1] == C('name')):
+        return ('NAME',)
+    return None
 
 
 def to_term(v, facts, fname):
@@ -212,18 +298,29 @@ def to_term(v, facts, fname):
         return ('REG', v[2])
     if v[0] == 'mcall' and v[2] == 'eval' and v[1] in (('attr', i, 'imm'), ('attr', ('attr', i, 'imm'), 'expr')):
         inner = v[1] != ('attr', i, 'imm')
-        if len(v[3]) >= 2 and v[3][1][0] == 'name' and v[3][1][1] != 'labels' and v[3][1] != e:
+        kind = env_kind(v[3][1], e) if len(v[3]) >= 2 else None
+        if kind is None:
+            raise AnalysisError('predicate {}: the table the immediate is evaluated against ({}) is not understood'.format(
+                fname, show(v[3][1])[:60] if len(v[3]) >= 2 else 'none given'))
+        if kind != 'labels':
             # evaluated against a table that is not the label environment (the pass's constants): label-independent - and it
             # fails (AssemblerError) for an expression that mentions a label
             if not _GUARD[0]:
-                UNGUARDED_EVALS.append((fname, v[3][1][1]))
-            return ('IMMX', v[3][1][1]) if inner else ('IMMC', v[3][1][1])
+                UNGUARDED_EVALS.append((fname, kind[1]))
+            return ('IMMX', kind[1]) if inner else ('IMMC', kind[1])
         # .expr of the operand: the expression inside a %hi / %lo wrapper, not the value the instruction carries
         return ('IMMX', None) if inner else ('IMM',)
+    if v[0] == 'call' and v[1] in facts.funcs and len(v[2]) >= 2 and v[2][0] == i and v[2][1] == p and v[1] not in imm_eval_wrappers(facts):
+        raise AnalysisError('predicate {}: the helper {} is handed the instruction and is not followed: what it computes is not known'.format(fname, v[1]))
     if v[0] == 'call' and v[1] in facts.funcs and len(v[2]) >= 2 and v[2][0] == i and v[2][1] == p:
         # wrapper around i.imm.eval (judged by R-auipc); evaluated against the live environment or against another table
-        if len(v[2]) >= 3 and v[2][2][0] == 'name' and v[2][2] != e and v[2][2][1] != 'labels':
-            return ('IMMC', v[2][2][1])
+        kind = env_kind(v[2][2], e) if len(v[2]) >= 3 else 'labels'
+        if kind is None:
+            raise AnalysisError('predicate {}: the table {} hands to {} is not understood'.format(fname, show(v[2][2])[:60], v[1]))
+        if kind != 'labels':
+            if not _GUARD[0]:
+                UNGUARDED_EVALS.append((fname, kind[1]))
+            return ('IMMC', kind[1])
         return ('IMM',)
     if v[0] == 'call' and v[1] == 'int' and v[2] and v[2][0] == ('attr', ('attr', i, 'imm'), 'expr') and len(v[2]) + len(v[3]) == 2 \
             and ((len(v[2]) == 2 and v[2][1] == C(0)) or (v[3] and v[3][0] == ('base', C(0)))):
